@@ -111,7 +111,7 @@ def run_mc(prop, tier, mc):
     if not ok or not st:
         tail = out[-3000:]
         tool_error(f"model {module}/{cfg} failed (rc={rc}): {tail}")
-    return {"model": name, "cfg": cfg, "states": st["distinct"], "transitions": st["generated"], "wall_s": round(dt, 1)}, out
+    return {"model": name, "cfg": cfg, "states": st["distinct"], "transitions": st["generated"], "wall_s": round(dt, 1), "exhaustive": True}, out
 
 
 def run_gen(prop, tier, gen, workdir):
@@ -123,6 +123,7 @@ def run_gen(prop, tier, gen, workdir):
     path = os.path.join(workdir, gen["name"] + ".cases.ndjson")
     n = 0
     with open(path, "w") as f:
+        f.write('{"ev":"Reset","sc":"generated"}\n')
         for line in out.splitlines():
             line = line.strip()
             if line.startswith('"CASE '):
@@ -132,6 +133,8 @@ def run_gen(prop, tier, gen, workdir):
                     continue
                 f.write(s[5:] + "\n")
                 n += 1
+                if n % 300 == 0:
+                    f.write('{"ev":"Reset","sc":"generated"}\n')   # lets the trace be validated in parallel chunks
     st = parse_mc_stats(out) or {"distinct": 0, "generated": 0}
     return path, n, {"model": gen["name"], "cfg": cfg, "states": st["distinct"], "transitions": st["generated"],
                      "cases": n, "wall_s": round(dt, 1)}
@@ -298,7 +301,7 @@ def main():
     if b[0] == "violation":
         violations.append(("C17|Send-Sync|harness-does-not-compile", b[1], "interpolator types are not Send + Sync"))
 
-    mc_stats, gen_stats = [], []
+    mc_stats, gen_stats, aux_stats = [], [], []
     traces = []  # (label, path)
     samples = []
     cov_total = {}
@@ -319,6 +322,16 @@ def main():
                 st, _ = run_mc(prop, tier, mc)
                 mc_stats.append(st)
                 log(f"[{prop}] MC {st}")
+            for aux in P.get("aux", []):
+                if tier == "quick" and aux.get("thorough_only"):
+                    continue
+                t0 = time.time()
+                r = subprocess.run(aux["cmd"], shell=True, cwd=V, capture_output=True, text=True)
+                if r.returncode != 0:
+                    tool_error(f"auxiliary obligation {aux['name']} failed: {(r.stdout + r.stderr)[-1500:]}")
+                aux_stats.append({"name": aux["name"], "cmd": aux["cmd"], "wall_s": round(time.time() - t0, 1),
+                                  "result": [l for l in r.stdout.splitlines() if l.strip()][-6:]})
+                log(f"[{prop}] AUX {aux['name']}: ok")
             for gen in P.get("gen", []):
                 if tier == "quick" and gen.get("thorough_only"):
                     continue
@@ -392,9 +405,11 @@ def main():
             "samples": samples[:3] if samples else [{"note": "no trace recorded"}],
             "models": mc_stats,
             "generators": gen_stats,
+            "auxiliary_obligations": aux_stats,
             "coverage_classes": relevant_cov,
             "largest_error_permille_of_tolerance": head_total,
-            "exhaustive": bool(mc_stats) and all(True for _ in mc_stats),
+            "exhaustive": False,
+            "exhaustive_note": "each entry of 'models' is an exhaustive TLC run of a bounded model; the recorded traces sample the input space",
             "explanation": P.get("explanation", ""),
             "known_findings_hit": [s for s, _ in known_hits],
             "missing_required_coverage": missing,
